@@ -309,3 +309,17 @@ package locate
 //@   opaque-callee SendReqAsync failpointSendReqResult disableReadFeaturesForNextGen reset logSendReqError next GetTotalSleep SpanFromContext
 //@   at call(next) assert validated: err == nil
 //@   loop 2 invariant validated: err == nil
+
+// A stale-command region error is retried for free only when a replica selector moves on to another peer; without a
+// selector (TiFlash, TiDB endpoints) the retry is paid for with a back-off of the stale-command kind (whose budget
+// eventually ends the call). (Stated for senders without runtime statistics: the statistics maps and the back-off
+// counters are maps of one type, which the memory model does not keep apart across an opaque call.)
+//@ func (*RegionRequestSender) onRegionError
+//@   prop C10
+//@   may-panic
+//@   requires regionErr != nil && s.Stats == nil
+//@   opaque-callee onNotLeader onRegionNotFound onServerIsBusy OnRegionEpochNotMatch UpdateBucketsIfNeeded markStoreNeedCheck InvalidateCachedRegion InvalidateCachedRegionWithReason onFlashbackInProgress onDataIsNotReady onReadIndexNotReady onMaxTimestampNotSynced invalidateRegion SetCtx SpanFromContext
+//@   ensures stalecmd: regionErr.UndeterminedResult == nil && regionErr.NotLeader == nil && regionErr.DiskFull == nil && regionErr.RecoveryInProgress == nil && regionErr.IsWitness == nil &&
+//@       regionErr.FlashbackInProgress == nil && regionErr.FlashbackNotPrepared == nil && regionErr.RegionNotFound == nil && regionErr.KeyNotInRegion == nil && regionErr.EpochNotMatch == nil &&
+//@       regionErr.BucketVersionNotMatch == nil && regionErr.ServerIsBusy == nil && regionErr.StaleCommand != nil && s.replicaSelector == nil && shouldRetry && err == nil ==>
+//@       bo.backoffTimes[staleCmdKind()] == old(bo.backoffTimes[staleCmdKind()]) + 1
